@@ -14,6 +14,39 @@ pub enum Cc {
     Ge,
 }
 
+#[derive(Clone, Copy, Debug, PartialEq)]
+pub enum Alu {
+    Divu,
+    Remu,
+    And,
+    Or,
+    Xor,
+    Sll,
+    Srl,
+    Sra,
+    Slt,
+    Sltu,
+    Mulh,
+    Add,
+}
+
+fn alu(op: Alu, a: u64, b: u64) -> u64 {
+    match op {
+        Alu::Divu => if b == 0 { u64::MAX } else { a / b },
+        Alu::Remu => if b == 0 { a } else { a % b },
+        Alu::And => a & b,
+        Alu::Or => a | b,
+        Alu::Xor => a ^ b,
+        Alu::Sll => a << (b & 63),
+        Alu::Srl => a >> (b & 63),
+        Alu::Sra => ((a as i64) >> (b & 63)) as u64,
+        Alu::Slt => ((a as i64) < (b as i64)) as u64,
+        Alu::Sltu => (a < b) as u64,
+        Alu::Mulh => (((a as i64 as i128) * (b as i64 as i128)) >> 64) as u64,
+        Alu::Add => a.wrapping_add(b),
+    }
+}
+
 #[derive(Clone, Debug, PartialEq)]
 pub enum Ins {
     Add(u8, u8, u8),
@@ -22,6 +55,15 @@ pub enum Ins {
     Mul(u8, u8, u8),
     Div(u8, u8, u8),
     Rem(u8, u8, u8),
+    /// further RV64IM register-register operations (not emitted by the pinned back end; accepted
+    /// so that a change that starts using them is judged by its behaviour)
+    Alu(Alu, u8, u8, u8),
+    /// the same operations with a 12-bit immediate (shift amounts: 6 bits)
+    AluI(Alu, u8, u8, i64),
+    /// LUI rd, imm20: rd = sign-extend-32(imm20 << 12)
+    Lui(u8, i64),
+    /// unsigned branches
+    BrU(bool, u8, u8, usize),
     Jal(u8, usize),
     Jalr(u8, u8, i64),
     La(u8, usize),
@@ -179,6 +221,96 @@ pub fn load(text: &str, code_base: u64) -> Result<Prog, LoadErr> {
                 fixups.push((ins.len(), toks[3].to_string(), line));
                 Ins::Br(cc, r(1)?, r(2)?, usize::MAX)
             }
+            "DIVU" | "REMU" | "AND" | "OR" | "XOR" | "SLL" | "SRL" | "SRA" | "SLT" | "SLTU" | "MULH" => {
+                if toks.len() != 4 {
+                    return Err(bad("operand count"));
+                }
+                let op = match toks[0] {
+                    "DIVU" => Alu::Divu,
+                    "REMU" => Alu::Remu,
+                    "AND" => Alu::And,
+                    "OR" => Alu::Or,
+                    "XOR" => Alu::Xor,
+                    "SLL" => Alu::Sll,
+                    "SRL" => Alu::Srl,
+                    "SRA" => Alu::Sra,
+                    "SLT" => Alu::Slt,
+                    "SLTU" => Alu::Sltu,
+                    _ => Alu::Mulh,
+                };
+                Ins::Alu(op, r(1)?, r(2)?, r(3)?)
+            }
+            "ADDI" | "ANDI" | "ORI" | "XORI" | "SLTI" | "SLTIU" | "SLLI" | "SRLI" | "SRAI" => {
+                if toks.len() != 4 {
+                    return Err(bad("operand count"));
+                }
+                let v = imm(3)?;
+                let (op, v) = match toks[0] {
+                    "ADDI" => (Alu::Add, imm12(v)?),
+                    "ANDI" => (Alu::And, imm12(v)?),
+                    "ORI" => (Alu::Or, imm12(v)?),
+                    "XORI" => (Alu::Xor, imm12(v)?),
+                    "SLTI" => (Alu::Slt, imm12(v)?),
+                    "SLTIU" => (Alu::Sltu, imm12(v)?),
+                    sh => {
+                        if !(0..64).contains(&v) {
+                            return Err(noenc(format!("shift amount {v} out of range")));
+                        }
+                        (if sh == "SLLI" { Alu::Sll } else if sh == "SRLI" { Alu::Srl } else { Alu::Sra }, v)
+                    }
+                };
+                Ins::AluI(op, r(1)?, r(2)?, v)
+            }
+            "LUI" => {
+                if toks.len() != 3 {
+                    return Err(bad("operand count"));
+                }
+                let v = imm(2)?;
+                if !(0..(1 << 20)).contains(&v) {
+                    return Err(noenc(format!("immediate {v} does not fit 20 bits")));
+                }
+                Ins::Lui(r(1)?, v)
+            }
+            "NEG" | "NOT" | "SEQZ" | "SNEZ" => {
+                if toks.len() != 3 {
+                    return Err(bad("operand count"));
+                }
+                match toks[0] {
+                    "NEG" => Ins::Sub(r(1)?, 0, r(2)?),
+                    "NOT" => Ins::AluI(Alu::Xor, r(1)?, r(2)?, -1),
+                    "SEQZ" => Ins::AluI(Alu::Sltu, r(1)?, r(2)?, 1),
+                    _ => Ins::Alu(Alu::Sltu, r(1)?, 0, r(2)?),
+                }
+            }
+            "BLTU" | "BGEU" => {
+                if toks.len() != 4 {
+                    return Err(bad("operand count"));
+                }
+                fixups.push((ins.len(), toks[3].to_string(), line));
+                Ins::BrU(toks[0] == "BLTU", r(1)?, r(2)?, usize::MAX)
+            }
+            "BEQZ" | "BNEZ" | "BLTZ" | "BGEZ" | "BGTZ" | "BLEZ" => {
+                if toks.len() != 3 {
+                    return Err(bad("operand count"));
+                }
+                let cc = match toks[0] {
+                    "BEQZ" => Cc::Eq,
+                    "BNEZ" => Cc::Ne,
+                    "BLTZ" => Cc::Lt,
+                    "BGEZ" => Cc::Ge,
+                    "BGTZ" => Cc::Gt,
+                    _ => Cc::Le,
+                };
+                fixups.push((ins.len(), toks[2].to_string(), line));
+                Ins::Br(cc, r(1)?, 0, usize::MAX)
+            }
+            "J" => {
+                if toks.len() != 2 {
+                    return Err(bad("operand count"));
+                }
+                fixups.push((ins.len(), toks[1].to_string(), line));
+                Ins::Jal(0, usize::MAX)
+            }
             _ => return Err(bad("unknown mnemonic")),
         };
         ins.push(i);
@@ -189,7 +321,7 @@ pub fn load(text: &str, code_base: u64) -> Result<Prog, LoadErr> {
             .get(&l)
             .ok_or_else(|| LoadErr::Text(Viol::new(Class::Text, format!("line {line}: undefined label `{l}`"))))?;
         match &mut ins[idx] {
-            Ins::Jal(_, t) | Ins::La(_, t) | Ins::Br(_, _, _, t) => *t = tgt,
+            Ins::Jal(_, t) | Ins::La(_, t) | Ins::Br(_, _, _, t) | Ins::BrU(_, _, _, t) => *t = tgt,
             _ => unreachable!(),
         }
     }
@@ -307,6 +439,22 @@ impl<'a> Machine<'a> {
                     let (n, m) = (x.v as i64, y.v as i64);
                     let r = if m == 0 { n } else { n.wrapping_rem(m) };
                     self.set(*d, V::combine(r as u64, x, y));
+                }
+                Ins::Alu(op, d, a, b) => {
+                    let (x, y) = (self.get(*a), self.get(*b));
+                    self.set(*d, V::combine(alu(*op, x.v, y.v), x, y));
+                }
+                Ins::AluI(op, d, a, i) => {
+                    let x = self.get(*a);
+                    self.set(*d, V { v: alu(*op, x.v, *i as u64), u: x.u });
+                }
+                Ins::Lui(d, i) => self.set(*d, V::d(((*i << 12) as i32) as i64 as u64)),
+                Ins::BrU(lt, a, b, t) => {
+                    let x = self.need(self.get(*a), "branch operand")?;
+                    let y = self.need(self.get(*b), "branch operand")?;
+                    if (x < y) == *lt {
+                        next = *t;
+                    }
                 }
                 Ins::Jal(d, t) => {
                     self.set(*d, V::d(p.addr[self.pc] + 4));
